@@ -268,6 +268,7 @@ PROPS = {
         "with the invalid expression's token and position, if and only if rendering reaches it; strict "
         "compilation is checked to reject the same template with that token and offset.",
         [K("k3::S-Deferred"), K("k3::S-Deferred-empty"), K("k3::S-Deferred-twice"), K("k3::S-Strict-rejects"),
+         K("k3::S-Strict-rejects-pipe-tail"), K("k3::S-Strict-rejects-pipe-middle"),
          U('pyvc.frames', 'strict_reads_frame', 'strict.reads_frame'),
          U('pyvc.frames', 'strict_identity', 'strict_identity', needs_k3=True),
          U('pyvc.frames', 'cook_error_frame', '_cook.error_frame')],
